@@ -5,6 +5,7 @@ import (
 	"errors"
 	"fmt"
 	"github.com/yorkie-team/yorkie/api/converter"
+	"sort"
 	"strings"
 	"sync"
 	gotime "time"
@@ -98,6 +99,18 @@ func ApplyEdits(root *json.Object, p *presence.Presence, edits []Edit) {
 		case "onew":
 			if o := root.GetObject("o"); o != nil {
 				o.SetNewObject(e.Key).SetInteger("x", e.V)
+			}
+		case "otext":
+			if o := root.GetObject("o"); o != nil {
+				o.SetNewText(e.Key).Edit(0, 0, e.S)
+			}
+		case "oarr":
+			if o := root.GetObject("o"); o != nil {
+				o.SetNewArray(e.Key).AddInteger(e.V, e.V+1)
+			}
+		case "ocnt":
+			if o := root.GetObject("o"); o != nil {
+				o.SetNewCounter(e.Key, int64(e.V)).Increase(1)
 			}
 		case "aadd":
 			if a := root.GetArray("a"); a != nil {
@@ -393,6 +406,15 @@ func safeUpdate(d *document.Document, edits []Edit, fail string) (err error, pan
 			return errInjected
 		case "panic":
 			panic("injected updater panic")
+		case "errp":
+			// the callback changed presence as well before it failed
+			p.Set("verif", "x")
+			p.Set("cur", "failed")
+			return errInjected
+		case "panicp":
+			p.Set("verif", "x")
+			p.Set("cur", "failed")
+			panic("injected updater panic")
 		case "sizep", "schemap":
 			// the same callback also changes presence
 			p.Set("verif", "x")
@@ -410,9 +432,27 @@ func docFingerprint(d *document.Document) string {
 	p := d.CreateChangePack()
 	ids := ""
 	for _, c := range p.Changes {
-		ids += fmt.Sprintf("%d/%d;", c.ClientSeq(), len(c.Operations()))
+		ids += fmt.Sprintf("%d/%d", c.ClientSeq(), len(c.Operations()))
+		if pc := c.PresenceChange(); pc != nil {
+			// the presence a pending change carries is part of it
+			ids += fmt.Sprintf("/%s%s", pc.ChangeType, presenceString(pc.Presence))
+		}
+		ids += ";"
 	}
-	return fmt.Sprintf("root=%s local=[%s] cp=%v vv=%s undo=%d", d.Marshal(), ids, d.Checkpoint(), d.VersionVector().Marshal(), d.UndoStackLenForTest())
+	return fmt.Sprintf("root=%s local=[%s] cp=%v vv=%s undo=%d presence=%s", d.Marshal(), ids, d.Checkpoint(), d.VersionVector().Marshal(), d.UndoStackLenForTest(), presenceString(d.MyPresence()))
+}
+
+func presenceString(m map[string]string) string {
+	keys := make([]string, 0, len(m))
+	for k := range m {
+		keys = append(keys, k)
+	}
+	sort.Strings(keys)
+	out := "{"
+	for _, k := range keys {
+		out += k + "=" + m[k] + ","
+	}
+	return out + "}"
 }
 
 func cloneMarshal(d *document.Document) (s string) {
